@@ -391,8 +391,9 @@ def main(prop, argv=None):
     ev = dict(property_id=pid, tier=tier, seed=seed, level='proof', coverage=cov,
               assumptions=list(getattr(prop, 'ASSUMPTIONS', [])) + ctx.notes,
               wall_s=round(wall, 2), violations=(len(violations) if violations else (1 if rc else 0)))
-    os.makedirs(os.path.join(VERIF, 'evidence'), exist_ok=True)
-    json.dump(jsonable(ev), open(os.path.join(VERIF, 'evidence', pid + '.json'), 'w'), indent=1)
+    evdir = os.environ.get('VERIF_EVIDENCE_DIR') or os.path.join(VERIF, 'evidence')
+    os.makedirs(evdir, exist_ok=True)
+    json.dump(jsonable(ev), open(os.path.join(evdir, pid + '.json'), 'w'), indent=1)
     log('[%s] tier=%s seed=%d evaluations=%d nontrivial=%d disagreements=%d oracle_failures=%d wall=%.1fs rc=%d' % (
         pid, tier, seed, ctx.evaluations, len(ctx.keys), len(ctx.disagreements), len(ctx.failures), wall, rc))
     sys.exit(rc)
